@@ -311,6 +311,13 @@ Definition FilesOwned (w : world) : Prop :=
   forall m x f, model_b w m = Some x -> In f (m_files x) ->
   exists fl, nth_opt (w_files w) (N.to_nat f) = Some fl /\ f_model fl = m.
 
+(* the files of a model have pairwise different names (create_file and load_buffer reject a name that a file of the
+   model already has); with FilesOwned it is preserved by every operation (Tree/FilesProofsNames.v) *)
+Definition name_at (w : world) (f : N) : list N :=
+  match nth_opt (w_files w) (N.to_nat f) with Some fl => f_name fl | None => [] end.
+Definition NamesUnique (w : world) : Prop :=
+  forall m x, model_b w m = Some x -> NoDup (map (name_at w) (m_files x)).
+
 (* the root element of model m has a type that is a named type (never the case for the real tables: AUTOSAR has no
    SHORT-NAME); remove_file of the last file could then fail to delete a SHORT-NAME child of the root *)
 Definition root_named (w : world) (o : op) : bool :=
